@@ -269,15 +269,22 @@ myth_tls_key_allocator_alloc(myth_tls_key_allocator_t * s,
 			     myth_tls_destructor_fun_t destructor) {
   while (1) {
     /* try to pull the element from the free list */
+    MYTH_VERIF_POINT(80);
     myth_tls_key_entry_t * ke = s->free;
+    MYTH_VERIF_EV1("KaLd", (long)((ke) ? (((ke) == (myth_tls_key_entry_t *)-1) ? -2 : (long)((ke) - s->keys)) : -1));
     if (ke) {
+      MYTH_VERIF_POINT(81);
       myth_tls_key_entry_t * next = ke->next;
+      MYTH_VERIF_EV2("KaNext", (long)((ke) ? (((ke) == (myth_tls_key_entry_t *)-1) ? -2 : (long)((ke) - s->keys)) : -1), (long)((next) ? (((next) == (myth_tls_key_entry_t *)-1) ? -2 : (long)((next) - s->keys)) : -1));
+      MYTH_VERIF_POINT(82);
       if (__sync_bool_compare_and_swap(&s->free, ke, next)) {
 	/* mark the key as used */
+	MYTH_VERIF_EV3("KaCas", (long)((ke) ? (((ke) == (myth_tls_key_entry_t *)-1) ? -2 : (long)((ke) - s->keys)) : -1), (long)((next) ? (((next) == (myth_tls_key_entry_t *)-1) ? -2 : (long)((next) - s->keys)) : -1), 1);
 	ke->next = (myth_tls_key_entry_t *)-1;
 	ke->destructor = destructor;
 	return ke - s->keys;
       }
+      MYTH_VERIF_EV3("KaCas", (long)((ke) ? (((ke) == (myth_tls_key_entry_t *)-1) ? -2 : (long)((ke) - s->keys)) : -1), (long)((next) ? (((next) == (myth_tls_key_entry_t *)-1) ? -2 : (long)((next) - s->keys)) : -1), 0);
     } else {
       return -1;
     }
@@ -298,11 +305,16 @@ myth_tls_key_allocator_dealloc(myth_tls_key_allocator_t * s, int key) {
   myth_tls_destructor_fun_t f = ke->destructor;
   while (1) {
     /* try to push the cell to the free list */
+    MYTH_VERIF_POINT(83);
     myth_tls_key_entry_t * head = s->free;
     ke->next = head;
+    MYTH_VERIF_EV2("KdLd", key, (long)((head) ? (((head) == (myth_tls_key_entry_t *)-1) ? -2 : (long)((head) - s->keys)) : -1));
+    MYTH_VERIF_POINT(84);
     if (__sync_bool_compare_and_swap(&s->free, head, ke)) {
+      MYTH_VERIF_EV3("KdCas", key, (long)((head) ? (((head) == (myth_tls_key_entry_t *)-1) ? -2 : (long)((head) - s->keys)) : -1), 1);
       return f;
     }
+    MYTH_VERIF_EV3("KdCas", key, (long)((head) ? (((head) == (myth_tls_key_entry_t *)-1) ? -2 : (long)((head) - s->keys)) : -1), 0);
   }
 }
 
